@@ -95,6 +95,19 @@ CHECKS = {
              'domain above; float rounding closed by lemma L1 (scaled widths + linear core at p=53).',
         note=_NOTE, technique=_T),
 }
+CHECKS['C19'] = dict(
+    text='The real submitter / worker run loops and TransferMonitor in one process, turned into generator co-versions '
+         'from the source and interleaved at switch points on shared state by a preemption-bounded scheduler with '
+         'symbolic preemption position/target; symbolic sizes (1-3 jobs), failing GetObject / file-system operation at '
+         'a symbolic index, cancelling user; oracle evaluated at the moment is_done() flips.',
+    note=_NOTE + '; real processes, pickling and manager proxies are outside (facade order checked with stubs)',
+    technique=_T + ' over generated co-routines (bounded preemptions)')
+CHECKS['C20'] = dict(
+    text='The real s3transfer.crt Python layer against a stub awscrt: sequences of 3 (thorough 4) submissions with '
+         'symbolic kinds, outcomes and completion order, 2 permits so that submitters block; permit conservation, '
+         'callback order, temp-file handling, shutdown barrier.',
+    note=_NOTE + '; stub awscrt stands for the real CRT client (assumes it finishes the request future before on_done)',
+    technique=_T)
 ALL = ['C%02d' % i for i in range(1, 21)]
 NA = [dict(property_id=p, reason='check not built yet in this round (planned in DESIGN.md section 3); no claim made')
       for p in ALL if p not in CHECKS]
